@@ -290,6 +290,7 @@ class Algebra:
         self.ranges = {}         # sym name -> (lo, hi) range for witness search
         self.opaque_rules = {}   # fname -> rule(args) -> RF or None (axioms of an uninterpreted function)
         self._radicands = []     # (RF, fingerprint) of forms raised to fractional powers
+        self.deep_facts = False  # allow the remainder of a fact division to use one more fact
         self._memo = {}
 
     # ------------------------------------------------------------------ budget
@@ -1160,7 +1161,8 @@ class Algebra:
             for m, c in rem.items():
                 left[m] = left.get(m, 0) + c
             left = {m: c for m, c in left.items() if c != 0}
-            rs0 = self._sign_poly(left, 3) if left else "0"
+            # the remainder may itself need one more fact (b = (b-a) + a with b-a >= 0, a >= 0)
+            rs0 = self._sign_poly(left, 2 if (self.deep_facts and depth == 0) else 3) if left else "0"
             if rs0 is not None:
                 if qsign > 0 and rs0 in ("+", ">=0", "0"):
                     return "+" if ((qstrict and strictF) or rs0 == "+") else ">=0"
